@@ -6,7 +6,12 @@ use log::{debug, error, info, trace, warn};
 use serde::{Deserialize, Serialize};
 use smallvec::SmallVec;
 
-use std::{cmp::Ordering, collections::BTreeMap, path::PathBuf, sync::Mutex};
+use std::{
+    cmp::Ordering,
+    collections::BTreeMap,
+    path::{Component, Path, PathBuf},
+    sync::Mutex,
+};
 
 use itertools::Itertools;
 use rayon::ThreadPoolBuilder;
@@ -167,10 +172,30 @@ pub(crate) fn restore_repository<S: IndexedTree>(
 /// * If a directory could not be created.
 /// * If the restore information could not be collected.
 #[allow(clippy::too_many_lines)]
+/// Checks that a node can be restored below the destination: its name must be exactly one
+/// normal path component (no `..`, no absolute path, no path separators). Everything else would
+/// make the restore write outside of the given destination.
+///
+/// # Errors
+///
+/// * If the name of the node is not a single normal path component
+fn check_node_name(path: &Path, node: &Node) -> RusticResult<()> {
+    let name = node.name();
+    let mut components = Path::new(&name).components();
+    match (components.next(), components.next()) {
+        (Some(Component::Normal(component)), None) if component == &*name => Ok(()),
+        _ => Err(RusticError::new(
+            ErrorKind::InvalidInput,
+            "The snapshot contains the entry `{path}` whose name is not a plain file name. Refusing to restore it.",
+        )
+        .attach_context("path", path.display().to_string())),
+    }
+}
+
 pub(crate) fn collect_and_prepare<S: IndexedFull>(
     repo: &Repository<S>,
     opts: RestoreOptions,
-    mut node_streamer: impl Iterator<Item = RusticResult<(PathBuf, Node)>>,
+    node_streamer: impl Iterator<Item = RusticResult<(PathBuf, Node)>>,
     dest: &LocalDestination,
     dry_run: bool,
 ) -> RusticResult<RestorePlan> {
@@ -311,6 +336,13 @@ pub(crate) fn collect_and_prepare<S: IndexedFull>(
 
     let mut next_dst = next_entry(&mut walker);
 
+    // refuse nodes which would be restored outside of the destination
+    let mut node_streamer = node_streamer.map(|item| -> RusticResult<(PathBuf, Node)> {
+        let (path, node) = item?;
+        check_node_name(&path, &node)?;
+        Ok((path, node))
+    });
+
     let mut next_node = node_streamer.next().transpose()?;
 
     loop {
@@ -381,6 +413,7 @@ fn restore_metadata(
 ) -> RusticResult<()> {
     let mut dir_stack = Vec::new();
     while let Some((path, node)) = node_streamer.next().transpose()? {
+        check_node_name(&path, &node)?;
         // Create hardlink directly, if this is one.
         if let Some(key) = hardlink_key(&node)
             && let Some(canonical) = hardlink_candidates.get(&key)
